@@ -102,6 +102,10 @@ pub enum Rel {
 
 #[derive(Clone, Debug, Serialize, Deserialize)]
 pub enum Op {
+    /// the protocol message of a certificate is altered (a part removed / added / changed), its signed message
+    /// recomputed, and the certificate RE-SIGNED for that message by a signer world (typically the honest world of its
+    /// own epoch: the chained key is kept), re-hashed and re-linked: every check but those on the message content passes
+    AlterResigned { at: u16, field: FieldAlter, by: WorldSel },
     Alter { at: u16, field: FieldAlter, resync_msg: bool, rehash: bool, repoint: bool },
     /// re-sign the signed message by another signer set
     Resign { at: u16, by: WorldSel, adopt_key: bool, commit_next: bool, rehash: bool, repoint: bool },
@@ -396,6 +400,10 @@ fn apply_op(st: &mut Store, op: &Op, cx: &Ctx) {
                 c.signed_message = c.protocol_message.compute_hash();
             }
             st.finish(i, *rehash, *repoint);
+        }
+        Op::AlterResigned { at, field, by } => {
+            apply_op(st, &Op::Alter { at: *at, field: field.clone(), resync_msg: true, rehash: false, repoint: false }, cx);
+            apply_op(st, &Op::Resign { at: *at, by: by.clone(), adopt_key: false, commit_next: false, rehash: true, repoint: true }, cx);
         }
         Op::Resign { at, by, adopt_key: adopt, commit_next, rehash, repoint } => {
             let Some(i) = st.standard_slot(*at) else { return };
@@ -960,6 +968,7 @@ fn case_fn(c: &Case, known: &[String]) -> Report {
             .iter()
             .map(|o| match o {
                 Op::Alter { field, rehash, resync_msg, .. } => format!("Alter:{}:{}{}", field_name(field), *rehash as u8, *resync_msg as u8),
+                Op::AlterResigned { field, by, .. } => format!("AlterResigned:{}:{by:?}", field_name(field)),
                 Op::Resign { by, rehash, adopt_key, commit_next, .. } => format!("Resign:{by:?}:{}{}{}", *rehash as u8, *adopt_key as u8, *commit_next as u8),
                 Op::AdvFork { parent, same_params, .. } => format!("AdvFork:{parent:?}:{}", *same_params as u8),
                 Op::Retarget { rel, rehash, .. } => format!("Retarget:{rel:?}:{}", *rehash as u8),
@@ -1176,7 +1185,14 @@ fn rel() -> impl Strategy<Value = Rel> {
 fn op_strategy() -> impl Strategy<Value = Op> {
     let b = || any::<bool>();
     let mostly = || prop::bool::weighted(0.75);
+    let part_alter = prop_oneof![
+        4 => (0u8..8).prop_map(FieldAlter::PartRemove),
+        2 => prop_oneof![Just(-1i8), Just(1i8), Just(2i8)].prop_map(FieldAlter::PartEpochAdd),
+        1 => (0u8..12, any::<u64>()).prop_map(|(k, s)| FieldAlter::PartAdd(k, s)),
+        1 => any::<u64>().prop_map(FieldAlter::PartDigest),
+    ];
     prop_oneof![
+        4 => (any::<u16>(), part_alter, prop_oneof![4 => Just(WorldSel::Offset(0)), 1 => Just(WorldSel::Offset(-1)), 1 => Just(WorldSel::AdversarySameParams)]).prop_map(|(at, field, by)| Op::AlterResigned { at, field, by }),
         6 => (any::<u16>(), field_alter(), b(), mostly(), mostly()).prop_map(|(at, field, resync_msg, rehash, repoint)| Op::Alter { at, field, resync_msg, rehash, repoint }),
         3 => (any::<u16>(), world_sel(), mostly(), b(), mostly(), mostly()).prop_map(|(at, by, adopt_key, commit_next, rehash, repoint)| Op::Resign { at, by, adopt_key, commit_next, rehash, repoint }),
         3 => (any::<u16>(), b(), parent_fix()).prop_map(|(at, same_params, parent)| Op::AdvFork { at, same_params, parent }),
@@ -1226,6 +1242,73 @@ fn hist_strategy(pool: Vec<ChainSpec>) -> impl Strategy<Value = HistCase> {
         },
     );
     (prop::sample::select(pool), adv_strategy(), prop_oneof![2 => prop::collection::vec(step(), 2..=4), 1 => fork_pattern]).prop_map(|(chain, adv, steps)| HistCase { chain, adv, steps })
+}
+
+// ------------------------------------------------------------------------------------------------------------------
+// long walks
+// ------------------------------------------------------------------------------------------------------------------
+
+/// "reaches, in finitely many steps, a genesis certificate": `len` certificates of ONE epoch, all validly signed by the
+/// provider's own signer set, linked in a row (same epoch, same key, same parameters: every link is well-formed), the
+/// oldest one pointing to a certificate the provider does not serve - no genesis anywhere
+#[derive(Clone, Debug, Serialize, Deserialize)]
+pub struct LongCase {
+    pub len: u32,
+}
+
+fn long_case(c: &LongCase) -> Report {
+    let mut rep = Report::new();
+    rep.label(format!("long-walk:{}", c.len));
+    let (Some(built), Some(w)) = (chain_cached(&witness_chain()), world_cached(&witness_adv().world)) else {
+        rep.discard("fixtures do not build");
+        return rep;
+    };
+    let Some(base) = built.certs.iter().rev().find(|x| !x.is_genesis()).cloned() else {
+        rep.discard("no standard certificate");
+        return rep;
+    };
+    let mut tmpl = base;
+    set_commitment(&mut tmpl, &w);
+    tmpl.signed_message = tmpl.protocol_message.compute_hash();
+    adopt_key(&mut tmpl, &w);
+    if !resign(&mut tmpl, &w) {
+        rep.discard("the provider's signers do not reach their quorum");
+        return rep;
+    }
+    let mut served = BTreeMap::new();
+    let mut prev = "0000000000000000000000000000000000000000000000000000000000000000".to_string();
+    let mut head = tmpl.clone();
+    let t0 = tmpl.metadata.sealed_at.timestamp_nanos_opt().unwrap_or(0);
+    for i in 0..c.len {
+        let mut x = tmpl.clone();
+        x.metadata.sealed_at = chrono::DateTime::from_timestamp_nanos(t0.wrapping_add(i as i64));
+        x.previous_hash = prev.clone();
+        rehash(&mut x);
+        prev = x.hash.clone();
+        served.insert(x.hash.clone(), x.clone());
+        head = x;
+    }
+    let retriever = Arc::new(StoreRetriever { served, log: Mutex::new((0, vec![])), budget: c.len as usize + 64 });
+    let verifier = MithrilCertificateVerifier::new(logger(), retriever.clone(), Arc::new(built.genesis_verifier.clone()));
+    let rt = tokio::runtime::Builder::new_current_thread().enable_all().build().expect("runtime");
+    let r = catch(|| rt.block_on(verifier.verify_certificate_chain(head.clone())));
+    let asked = retriever.log.lock().unwrap().0;
+    rep.nontrivial(format!("long-walk|{}", c.len));
+    match r {
+        Ok(Ok(())) => {
+            rep.violation(
+                "accepted:walk-never-reaches-genesis",
+                format!("verify_certificate_chain accepted the newest of {} certificates of one epoch signed by the provider's own signers and linked in a row; the oldest points to a certificate that is not served, there is no genesis certificate ({asked} certificates were asked for)", c.len),
+            );
+        }
+        Ok(Err(_)) => {
+            rep.label("long-walk:rejected");
+        }
+        Err(p) => {
+            rep.violation("panic-in-verifier", format!("verifier panicked on a walk of {} certificates: {p}", c.len));
+        }
+    }
+    rep
 }
 
 // ------------------------------------------------------------------------------------------------------------------
@@ -1342,6 +1425,8 @@ pub fn run(args: &Args) -> i32 {
         let pool = pool.clone();
         check.section("client-cache-history", move || hist_strategy(pool.clone()), t.pick(3000, 30_000), |c: &HistCase| hist_case(c, &known));
     }
+    // walks far longer than any honest chain segment the generated cases contain
+    check.enumerate("long-walks", [40u32, 300, 1100, 2500].into_iter().map(|len| LongCase { len }), false, long_case);
     if check.label_count("honest-rejected") > 0 {
         check.inconclusive("an untampered honest chain was rejected: the harness' chain builder is wrong".into());
     }
